@@ -109,12 +109,15 @@ class Explorer:
         self.max_depth = 60
         self.max_unroll = 64
         self.max_paths = 5000
+        self.max_seconds = float(os.environ.get('PYVC_MAX_SECONDS', '600'))
         self.native_div = True
         self.overrides = {}
         self.current: Contract | None = None
         self._enum_vals = {}
         self.externals = {}
         self.dump_dir = None
+        self.refute_bound = [8, 24]
+        self.refute_timeout_ms = 20000
 
     # ----------------------------------------------------------------- misc
     def enqueue(self, prefix):
@@ -197,6 +200,7 @@ class Explorer:
         if P.txns:
             raise MergeAbort()
         P.modular.add(c.short)
+        P.modular_calls[c.short] = P.modular_calls.get(c.short, 0) + 1
         bound = self.bind_target(P, info, args, kwargs)
         short = c.short
         if c.pre is not None:
@@ -300,6 +304,7 @@ class Explorer:
         for k, v in c.overrides.items():
             self.overrides[k] = self.types.parse_str(v, modname, cls)
         bound = {}
+        P.param_types = {}
         is_init = info is not None and info.name == '__init__'
         for p, tstr in c.params.items():
             t = self.types.parse_str(tstr, modname, cls)
@@ -307,21 +312,26 @@ class Explorer:
                 cs = case[p]
                 if cs[0] == 'enum':
                     bound[p] = EnumV(self.index.find_class(cs[1]), cs[2])
+                    P.param_types[p] = (t, bound[p])
                     continue
                 if cs[0] == 'bool':
                     bound[p] = cs[1]
+                    P.param_types[p] = (t, bound[p])
                     continue
                 if cs[0] == 'alt':
                     t = t[1][cs[1]]
             if is_init and p == 'self':
                 bound[p] = SObj(t[1], {}, 'self')
                 continue
+            P.param_types[p] = (t, None)
             bound[p] = P.fresh(t, p)
+        P.bound = bound
         if c.pre is not None:
             for k, cond in self._call_spec(P, c.pre, bound).items():
                 P.assume(P.truthy(cond), fact=True)
         needs_old = c.post is not None and 'old' in [a.arg for a in c.post.node.args.args]
         old = self.snapshot(bound) if needs_old or True else None
+        P.old = old
         outcome = None
         result = None
         short = c.short
@@ -370,6 +380,8 @@ class Explorer:
                 extra = {'result': result, 'old': SObj(None, old.fields, 'old')}
                 for k, cond in self._call_spec(P, c.post, bound, extra).items():
                     P.oblige(f'{short}#post[{k}]', 'post', P.truthy(cond))
+            for callee, cnt in c.opts.get('call_counts', {}).items():
+                P.oblige(f'{short}#calls[{callee}=={cnt}]', 'calls', P.modular_calls.get(callee, 0) == cnt)
             # frame: inputs unchanged unless listed in modifies
             self._frame(P, c, bound, old)
 
@@ -419,7 +431,22 @@ class Explorer:
 
     # ------------------------------------------------------------- discharge
     def discharge(self, facts_pc, goal, timeout_ms=None):
-        """Returns (status, secs, backend, smt2)"""
+        """Returns (status, secs, backend, smt2); honours the contract option `bounded`."""
+        B = self.current.opts.get('bounded') if self.current is not None else None
+        if B is None:
+            return self._discharge(facts_pc, goal, timeout_ms)
+        st, secs, backend, smt2 = self._discharge(facts_pc, goal, self.current.opts.get('bounded_try_ms', 3000), fallback=False)
+        if st == 'unsat':
+            return st, secs, backend, smt2
+        from .refute import bounded_model
+        t0 = time.time()
+        g = z3.BoolVal(False) if goal is False else as_z3bool(goal)
+        bst, _ = bounded_model(list(facts_pc) + [z3.Not(g)], B, self.current.opts.get('bounded_ms', 60000))
+        if bst == 'unsat':
+            return 'bounded-unsat', secs + time.time() - t0, f'z3-bounded({B})', None
+        return st, secs + time.time() - t0, backend, smt2
+
+    def _discharge(self, facts_pc, goal, timeout_ms=None, fallback=True):
         t0 = time.time()
         if goal is True:
             return 'unsat', 0.0, 'trivial', None
@@ -441,6 +468,8 @@ class Explorer:
         if r == z3.unsat:
             return 'unsat', dt, 'z3', None
         smt2 = s.to_smt2()
+        if not fallback:
+            return ('sat' if r == z3.sat else 'unknown'), time.time() - t0, 'z3', smt2
         # cvc5 second opinion
         st2 = self._cvc5(smt2)
         if st2 == 'unsat':
@@ -477,6 +506,28 @@ class Explorer:
         except Exception:
             return 'error'
 
+    def refute(self, P, c, ob):
+        """bounded standard-model search for a counterexample of an open obligation"""
+        from .refute import Concretizer, bounded_model, ghost_values
+        g = z3.BoolVal(False) if ob.goal is False else as_z3bool(ob.goal)
+        formulas = list(ob.pc) + [z3.Not(g)]
+        status = 'none'
+        for B in self.refute_bound:
+            try:
+                status, model = bounded_model(formulas, B, self.refute_timeout_ms)
+            except Exception as e:
+                return None, f'error: {e}'
+            if model is not None:
+                try:
+                    cz = Concretizer(self, P, model)
+                    args = {}
+                    for p_, (t, pinned) in P.param_types.items():
+                        args[p_] = cz.value(pinned) if pinned is not None else cz.entry(t, p_)
+                    return {'args': args, 'ghost': ghost_values(model), 'bound': B}, 'sat'
+                except Exception as e:
+                    return None, f'concretize-error: {type(e).__name__}: {e}'
+        return None, status
+
     # ------------------------------------------------------------------ main
     def verify(self, cname: str, case: dict | None = None):
         """Explore all paths of contract `cname` (one explicit case); returns a report dict."""
@@ -497,6 +548,11 @@ class Explorer:
         while self.queue:
             prefix = self.queue.popleft()
             npaths += 1
+            if os.environ.get('PYVC_LOG'):
+                print(f'[pyvc] {c.name}[{_case_str(case)}] path {npaths} queue={len(self.queue)} t={time.time()-t0:.1f}s', flush=True)
+            if time.time() - t0 > self.max_seconds:
+                unsupported.append(f'time budget {self.max_seconds}s exceeded after {npaths} paths')
+                break
             if npaths > self.max_paths:
                 unsupported.append(f'path budget {self.max_paths} exceeded')
                 break
@@ -517,6 +573,8 @@ class Explorer:
             modular |= P.modular
             for ob in P.obligations:
                 st, secs, backend, smt2 = self.discharge(ob.pc, ob.goal)
+                if os.environ.get('PYVC_LOG') and secs > 2:
+                    print(f'[pyvc]    slow {ob.name}: {st} {secs:.1f}s {backend}', flush=True)
                 o = obl[ob.name]
                 o['kind'] = ob.kind
                 o['paths'] += 1
@@ -524,16 +582,22 @@ class Explorer:
                 o['backends'][backend] += 1
                 if st == 'unsat':
                     o['unsat'] += 1
+                elif st == 'bounded-unsat':
+                    o['unsat'] += 1
+                    o['bounded'] = o.get('bounded', 0) + 1
                 else:
-                    o['open'].append({'status': st, 'trace': list(P.trace), 'decisions': _ser(P.decisions),
-                                      'outcome': res.outcome, 'info': ob.info, 'smt2': smt2})
+                    ent = {'status': st, 'trace': list(P.trace), 'decisions': _ser(P.decisions),
+                           'outcome': res.outcome, 'info': ob.info, 'smt2': smt2, 'cex': None}
+                    if self.refute_bound:
+                        ent['cex'], ent['refute_status'] = self.refute(P, c, ob)
+                    o['open'].append(ent)
             paths.append((res.outcome, len(P.obligations)))
         report = {
             'contract': c.name, 'target': c.target, 'case': _case_str(case), 'kind': c.kind,
             'sha': info.sha() if info else None,
             'paths': feasible_paths, 'explored': npaths,
             'unsupported': unsupported, 'crashes': crashes,
-            'obligations': {k: {'kind': v['kind'], 'paths': v['paths'], 'unsat': v['unsat'],
+            'obligations': {k: {'kind': v['kind'], 'paths': v['paths'], 'unsat': v['unsat'], 'bounded': v.get('bounded', 0),
                                 'open': v['open'], 'secs': round(v['secs'], 3),
                                 'backends': dict(v['backends'])} for k, v in obl.items()},
             'inlined': sorted(inlined - ({info.qualname} if info else set())),
